@@ -16,6 +16,41 @@ OCAML = lmmm.OCAML
 HARNESS = lmmm.HARNESS
 
 
+def gen_special_sources(rng, n):
+    """programs whose self / mem / delay cells come to hold Inf, -Inf, NaN, -0.0, huge or subnormal values after a few samples"""
+    big = ["1000000.0 * 1000000.0 * 1000000.0 * 1000000.0 * 1000000.0", "1000000.0 * 1000000.0 * 1000000.0 * 1000000.0 * 1000000.0 * 1000000.0 * 1000000.0 * 1000000.0 * 1000000.0 * 1000000.0"]
+    out = []
+    for _ in range(n):
+        B = rng.choice(big)
+        k0 = rng.range(0, 6)
+        funs = {
+            "blow": "fn blow(){ self * (%s) + 1.0 }" % B,                          # 1, 1e30.., +Inf after a few samples
+            "sink": "fn sink(){ self * (%s) - 1.0 }" % B,                          # -Inf
+            "nan0": "fn nan0(){ let z = self - self\n  if (now > %d.0) { z / z + self } else { self + 1.0 } }" % k0,      # NaN from sample k0+1 on
+            "infdiff": "fn infdiff(){ let a = blow()\n  a - a + self }",            # Inf - Inf = NaN once blow overflows
+            "negz": "fn negz(){ (0.0 - self) * 0.0 - 0.0 * (now + 1.0) }",          # signed zeros
+            "tiny": "fn tiny(){ (self + 1.0) / (%s) / (%s) }" % (B, B),             # underflows to subnormal / 0
+            "gate": "fn gate(){ if (now > %d.0) { self * (%s) + 2.0 } else { self + 0.0 } }" % (k0, B),
+        }
+        names = list(funs)
+        for i in range(len(names) - 1, 0, -1):
+            j = rng.below(i + 1); names[i], names[j] = names[j], names[i]
+        pick = names[:rng.range(1, 3)]
+        need = set(pick) | ({"blow"} if "infdiff" in pick else set())
+        exprs = []
+        for nm in pick:
+            w = rng.below(4)
+            call = nm + "()"
+            if w == 1: call = "mem(%s)" % call
+            elif w == 2: call = "delay(%d.0, %s, %d.0)" % (rng.range(2, 4), call, 1)
+            elif w == 3: call = "(if (now > %d.0) { %s } else { mem(now) })" % (rng.range(0, 9), call)
+            exprs.append(call)
+        body = exprs[0] if len(exprs) == 1 else "(" + ", ".join(exprs) + ")"
+        order = [n_ for n_ in ["blow", "sink", "nan0", "infdiff", "negz", "tiny", "gate"] if n_ in need]
+        out.append("\n".join(funs[n_] for n_ in order) + "\nfn dsp(){\n  %s\n}\n" % body)
+    return out
+
+
 def run(ck):
     ck.level = "proof"
     proved = ck.prove(tables=["statetree_consts"], extra_targets=[lmmm.EXTRACT_TARGET])
@@ -46,6 +81,18 @@ def run(ck):
             r = dict(base)
             r["swaps"] = [{"at": t, "src": src} for t in pts]
             reqs.append(r); meta.append((ci, pts))
+    # ---- state cells holding NON-FINITE or otherwise special values at the split point (Inf, -Inf, NaN, -0.0, huge, subnormal):
+    # the copy of the state must be faithful whatever the words contain (response to seeded change C06b) ----
+    special = gen_special_sources(ck.rng.fork("special"), 40 if quick else 400)
+    for si, src in enumerate(special):
+        base = {"src": src, "n": 20, "state": False}
+        reqs.append(dict(base)); meta.append((("special", si), None))
+        for variant in range(2):
+            k = rng.range(1, 3)
+            pts = sorted(rng.choice([0, 1, 2, 3, 5, 8, 13, 16, 19]) for _ in range(k))
+            r = dict(base)
+            r["swaps"] = [{"at": t, "src": src} for t in pts]
+            reqs.append(r); meta.append((("special", si), pts))
     res = run_impl(iexe, reqs)
     stats = {}
     def bump(k, n=1): stats[k] = stats.get(k, 0) + n
@@ -59,7 +106,7 @@ def run(ck):
         if pts is None:
             continue
         b0 = base_of.get(ci)
-        p, rows = cases[ci]
+        p, rows = (None, [None] * 20) if isinstance(ci, tuple) else cases[ci]
         if 'crash' in r or b0 is None or 'crash' in b0:
             viol.append(("harness process died during a hot-swap run", ci, pts, {"rc": str(r.get('crash'))})); continue
         for be in ("vm", "wasm"):
@@ -86,7 +133,9 @@ def run(ck):
             else:
                 bump(be + "_swaps_inaudible")
                 if x.get('skel') not in (None, "[]"):
-                    distinct.add((pp_prog(p), tuple(pts)))
+                    distinct.add((special[ci[1]] if isinstance(ci, tuple) else pp_prog(p), tuple(pts)))
+                if isinstance(ci, tuple):
+                    bump(be + "_special_value_state_inaudible")
     ck.coverage["evaluations"] = len(reqs)
     ck.coverage["distinct_nontrivial"] = len(distinct)
     ck.coverage["programs"] = len(cases)
@@ -94,6 +143,10 @@ def run(ck):
     for i in (1, len(reqs) // 2, len(reqs) - 1):
         ck.sample({"source": reqs[i]["src"], "swap_points": meta[i][1], "n": reqs[i]["n"]})
     for what, ci, pts, det in viol[:5]:
+        if isinstance(ci, tuple):
+            ck.violation(what + " (state cells holding non-finite / special values)", {"source": special[ci[1]], "swap_at_samples": pts, "n_samples": 20, **det,
+                                "how": "lmmm_run request with \"swaps\":[{\"at\":t,\"src\":<same source>}]"})
+            continue
         p, rows = cases[ci]
         ck.violation(what, {"source": pp_prog(p), "swap_at_samples": pts, "n_samples": len(rows), "inputs": rows if p['inputs'] else None, **det,
                             "how": "lmmm_run request with \"swaps\":[{\"at\":t,\"src\":<same source>}]"})
